@@ -83,6 +83,35 @@ theorem list_insert (C : Codec) (hC : C.Sound) (key : Bytes) (s : KV) (e : Entry
   rw [kvGet_put_same]
   simp only [value_roundtrip C hC]
 
+/-! ### distinct paths have distinct keys -/
+
+/-- leveldb: `dir 00 name` determines (dir, name) when directory paths contain no 0x00 -/
+theorem keyLeveldb_injective : ∀ (d1 d2 n1 n2 : Bytes), (∀ b ∈ d1, b ≠ 0) → (∀ b ∈ d2, b ≠ 0) →
+    keyLeveldb d1 n1 = keyLeveldb d2 n2 → d1 = d2 ∧ n1 = n2
+  | [], [], n1, n2, _, _, h => by simpa [keyLeveldb] using h
+  | [], b :: d2, n1, n2, _, h2, h => by
+    simp [keyLeveldb] at h; exact absurd h.1.symm (h2 b (by simp))
+  | a :: d1, [], n1, n2, h1, _, h => by
+    simp [keyLeveldb] at h; exact absurd h.1 (h1 a (by simp))
+  | a :: d1, b :: d2, n1, n2, h1, h2, h => by
+    simp only [keyLeveldb, List.cons_append, List.cons.injEq] at h
+    have := keyLeveldb_injective d1 d2 n1 n2 (fun x hx => h1 x (by simp [hx])) (fun x hx => h2 x (by simp [hx]))
+      (by simpa [keyLeveldb] using h.2)
+    exact ⟨by rw [h.1, this.1], this.2⟩
+
+/-- leveldb2/leveldb3: `md5(dir) name` determines (dir, name) for a fixed-length injective hash (trusted: md5) -/
+theorem keyMd5_injective (h : Bytes → Bytes) (hlen : ∀ d, (h d).length = 16) (hinj : ∀ d1 d2, h d1 = h d2 → d1 = d2)
+    (d1 d2 n1 n2 : Bytes) (heq : keyMd5 h d1 n1 = keyMd5 h d2 n2) : d1 = d2 ∧ n1 = n2 := by
+  unfold keyMd5 at heq
+  have := List.append_inj heq (by rw [hlen, hlen])
+  exact ⟨hinj _ _ this.1, this.2⟩
+
+/-- so an insert at one path never changes what another path reads (leveldb) -/
+theorem find_insert_other_path (C : Codec) (d1 d2 n1 n2 : Bytes) (s : KV) (e : Entry) (hd1 : ∀ b ∈ d1, b ≠ 0)
+    (hd2 : ∀ b ∈ d2, b ≠ 0) (hne : ¬ (d1 = d2 ∧ n1 = n2)) :
+    find C (keyLeveldb d2 n2) (SwV.Model.C24.insert C (keyLeveldb d1 n1) s e) = find C (keyLeveldb d2 n2) s :=
+  find_insert_other C _ _ s e (fun h => hne (keyLeveldb_injective d1 d2 n1 n2 hd1 hd2 h))
+
 /-! ### what comes back IS what was written (Spec.sameEntry) -/
 
 theorem effId_after_before (s : List Char) (f : Option Fid) :
